@@ -3,6 +3,7 @@ CONSTANTS
   NR = 2
   Form = "two"
   Alpha = "two2"
+  XLess = {}
   Export = TRUE
 SPECIFICATION Spec
 INVARIANT TypeOK
